@@ -40,10 +40,11 @@ FN_OF_TYPE = {'ALWAYS_TRUE': 'always_true_', 'ALWAYS_FALSE': 'always_false_', 'A
               'NOT': 'not_', 'NXOR': 'nxor_', 'OR': 'or_', 'RIFF': 'riff_', 'RNOT': 'rnot_', 'XOR': 'xor_'}
 
 
-def _local_culprit(net, r_full):
-    """Lowest gate whose reported value is not justified by the reported values of its own operands
-    (defined although the operands leave it open, or different from the forced value): the operator
-    of that gate type is unsound by itself. None if every gate is locally sound."""
+def _local_culprit(net, r_full, tab=None, comp=None):
+    """Lowest gate whose reported value is wrong for some completion AND is not justified by the reported values
+    of its own operands (defined although the operands leave it open, or different from the forced value): the
+    operator of that gate type is unsound by itself. None if there is no such gate.  (A gate that reports more
+    than the operator tables justify but is right for every completion - GT(x, x) = False - is not a culprit.)"""
     if r_full is None:
         return None
     rk = N.rank(net)
@@ -55,6 +56,8 @@ def _local_culprit(net, r_full):
         if v is None or isinstance(v, tuple):
             continue
         if any(isinstance(r_full.get(o), tuple) for o in ops):
+            continue
+        if tab is not None and g in tab and all(tab[g][j] == v for j in comp):
             continue
         if S.OP3(t, [r_full.get(o) for o in ops]) != v:
             return g
@@ -119,7 +122,8 @@ def check_net(acc, net):
             r_full = call(0, p, False)
         except Exception:
             r_full = None
-        cg = _local_culprit(net, r_full)
+        comp_p = [j for j, x in enumerate(total) if all(pv is None or pv == xv for pv, xv in zip(p, x))]
+        cg = _local_culprit(net, r_full, tab, comp_p)
         if cg is not None:
             t = net.gates[cg][0]
             acc.violation(f'C15/{FN_OF_TYPE.get(t, t)}/sound-three-valued', f'op-{t}',
